@@ -213,6 +213,22 @@ pub fn poison_mutex<T>(l: &std::sync::Mutex<T>) {
     let _ = catch(|| { let _g = l.lock().unwrap_or_else(|e| e.into_inner()); panic!("holder dies while holding the lock"); });
     assert!(l.is_poisoned());
 }
+/// Evaluates one case of property `id` in a child process (`lc3mc isolated <id> <case>`): `Ok(None)` = holds, `Ok(Some(text))` = violation.
+/// If the child dies without reporting (the subject overflowed the stack or aborted, which no `catch_unwind` can intercept) that is reported
+/// as a violation of its own. `Err` = the child could not be run (machinery).
+pub fn isolated(id: &str, case: &str) -> Result<Option<String>, String> {
+    let exe = std::env::current_exe().map_err(|e| format!("current_exe: {e}"))?;
+    let out = std::process::Command::new(exe).args(["isolated", id, case]).output().map_err(|e| format!("spawn: {e}"))?;
+    let stdout = String::from_utf8_lossy(&out.stdout);
+    if let Some(l) = stdout.lines().find(|l| l.starts_with("ISOLATED-RESULT ")) {
+        let rest = &l["ISOLATED-RESULT ".len()..];
+        return Ok(if rest == "none" { None } else { Some(rest.trim_start_matches("violation ").to_string()) });
+    }
+    let err = String::from_utf8_lossy(&out.stderr);
+    // only a keyword is kept: the runtime's message carries thread ids and addresses, which differ between runs (replay discipline)
+    let why = if err.contains("overflowed its stack") || err.contains("stack overflow") { "stack overflow" } else if err.contains("memory allocation") { "allocation failure" } else if err.contains("abort") { "abort" } else { "" }.to_string();
+    Ok(Some(format!("[process-abort] the process evaluating the case died without a verdict ({}; status {:?}) — not an unwinding panic, it takes the caller's process down", if why.is_empty() { "no diagnostic" } else { &why }, out.status.code())))
+}
 /// Reduces a panic message to a stable site signature: `file:line` with the /repo prefix dropped.
 pub fn panic_site(msg: &str) -> String {
     match msg.rsplit_once(" @ ") {
